@@ -145,6 +145,7 @@ package webdoc
 
 //@ func (*Text).GenerateOutput(textOnly)
 //@   requires [C01] wfText(t)
+//@   ensures [C05] #serialises-stripped-clone result == "" || inert(clonedRoot) == 1
 //@   loop 0 invariant clonedRoot != nil && fresh(clonedRoot) && wfText(t)
 
 // ---- TextBuilder (C02: each text node goes to exactly one Text; C01: index safety) ----
@@ -225,3 +226,34 @@ package webdoc
 //@ func (*TextBlock).ApplyToModel()
 //@   requires tb != nil && inheap(tb.TextElements) && forall(j, 0 <= j && j < len(tb.TextElements), tb.TextElements[j] != nil)
 //@   loop 0 invariant tb != nil && inheap(tb.TextElements) && forall(j, 0 <= j && j < len(tb.TextElements), tb.TextElements[j] != nil)
+
+// ---- renderers (C05): what is serialised is a clone whose attributes were stripped ----
+
+//@ func (*Image).cloneAndProcessNode()
+//@   requires i != nil && i.Element != nil
+//@   ensures [C05] #clone-is-stripped result != nil && inert(result) == 1
+
+//@ func (*Image).GenerateOutput(textOnly)
+//@   requires i != nil && i.Element != nil && (i.cloned == nil || inert(i.cloned) == 1)
+//@   ensures [C05] #serialises-stripped-clone textOnly || (i.cloned != nil && inert(i.cloned) == 1)
+
+//@ func (*Image).getProcessedNode()
+//@   requires i != nil && i.Element != nil && (i.cloned == nil || inert(i.cloned) == 1)
+//@   ensures [C05] result != nil && inert(result) == 1 && result == i.cloned
+
+//@ func (*Table).GenerateOutput(textOnly)
+//@   requires t != nil && t.Element != nil && (t.cloned == nil || inert(t.cloned) == 1)
+//@   ensures [C05] #serialises-stripped-clone t.cloned == nil || inert(t.cloned) == 1
+
+//@ func (*Figure).GenerateOutput(textOnly)
+//@   requires f != nil && f.Element != nil && f.Caption != nil && (f.cloned == nil || inert(f.cloned) == 1)
+//@   ensures [C05] #serialises-stripped-clone textOnly || inert(figure) == 1
+
+//@ func (*Video).GenerateOutput(textOnly)
+//@   requires v != nil && v.Element != nil
+//@   ensures [C05] #serialises-stripped-clone textOnly || inert(vNode) == 1
+//@   loop 0 invariant vNode != nil && v != nil && v.Element != nil
+
+//@ func (*Embed).GenerateOutput(textOnly)
+//@   requires e != nil && e.Element != nil
+//@   ensures [C05] #embedded-element-stripped textOnly || !(dom.TagName(e.Element) == "blockquote" || dom.TagName(e.Element) == "iframe") || inert(e.Element) == 1
